@@ -2,3 +2,4 @@ import Proofs.C05
 import Proofs.C17
 import Proofs.C18
 import Proofs.C20
+import Proofs.C16
